@@ -458,200 +458,302 @@ const BLOCKS: &[&str] = &["\"\"\"\"\"\"", "\"\"\"b\"\"\"", "\"\"\"two\nlines\"\"
     "\"\"\"\r\n\tcrlf\r\n\"\"\"", "\"\"\"é 😀 # , \"\"\"", "\"\"\"\n\n  x\n\n\"\"\""];
 const NUMS: &[&str] = &["0", "-0", "7", "-12", "1234567890123456789012", "1.5", "-0.25", "2e3", "1.0E-2", "0.0", "9E+9", "-1e0", "6.02e23"];
 
+/// Coq terms of Gql/Ast.v with dummy positions, built from the generator's own choices (never by parsing)
+const P0: &str = "pos0";
+fn t_id(n: &str) -> String { format!("(mkId {} {P0})", coq_str(n)) }
+fn t_list(xs: &[String]) -> String { format!("[{}]", xs.join("; ")) }
+fn t_opt(x: &Option<String>) -> String { match x { None => "None".into(), Some(v) => format!("(Some {})", v) } }
+fn t_kw(n: &str) -> String { format!("(mkKw {} {P0})", coq_str(n)) }
+
+/// value of a quoted string token as the specification defines it (all escape forms, surrogate pairs)
+fn spec_quoted_value(raw: &str) -> String {
+    let cs: Vec<char> = raw.chars().collect();
+    let mut out = String::new();
+    let mut i = 1;
+    let hex = |s: &[char]| u32::from_str_radix(&s.iter().collect::<String>(), 16).unwrap_or(0xFFFD);
+    while i + 1 < cs.len() {
+        if cs[i] != '\\' { out.push(cs[i]); i += 1; continue; }
+        match cs[i + 1] {
+            '"' => { out.push('"'); i += 2; } '\\' => { out.push('\\'); i += 2; } '/' => { out.push('/'); i += 2; }
+            'b' => { out.push('\u{8}'); i += 2; } 'f' => { out.push('\u{c}'); i += 2; } 'n' => { out.push('\n'); i += 2; }
+            'r' => { out.push('\r'); i += 2; } 't' => { out.push('\t'); i += 2; }
+            'u' => {
+                if cs.get(i + 2) == Some(&'{') {
+                    let mut j = i + 3; while j < cs.len() && cs[j] != '}' { j += 1; }
+                    out.push(char::from_u32(hex(&cs[i + 3..j])).unwrap_or('\u{FFFD}')); i = j + 1;
+                } else {
+                    let v = hex(&cs[i + 2..i + 6]);
+                    if (0xD800..0xDC00).contains(&v) && cs.get(i + 6) == Some(&'\\') && cs.get(i + 7) == Some(&'u') {
+                        let w = hex(&cs[i + 8..i + 12]);
+                        out.push(char::from_u32(0x10000 + ((v - 0xD800) << 10) + (w - 0xDC00)).unwrap_or('\u{FFFD}')); i += 12;
+                    } else { out.push(char::from_u32(v).unwrap_or('\u{FFFD}')); i += 6; }
+                }
+            }
+            _ => { i += 2; }
+        }
+    }
+    out
+}
+
 impl<'a> PG<'a> {
     fn p(&mut self, s: &str) { self.t.push(Tk::P(s.into())); }
     fn n(&mut self, s: &str) { self.t.push(Tk::Name(s.into())); }
-    fn name(&mut self) { let s = *self.rng.pick(NAMES); self.n(s); }
-    fn name_not(&mut self, bad: &[&str]) { loop { let s = *self.rng.pick(NAMES); if !bad.contains(&s) { self.n(s); return; } } }
-    fn tname(&mut self) { let s = *self.rng.pick(TYPE_NAMES); self.n(s); }
-    fn string(&mut self) {
-        if self.rng.chance(1, 40) { self.constructs.push("surrogate-pair-escape"); self.t.push(Tk::Str("\"\\uD83D\\uDE00\"".into())); return; }
-        if self.rng.chance(1, 4) { let s = *self.rng.pick(BLOCKS); self.t.push(Tk::Block(s.into())); } else { let s = *self.rng.pick(STRS); self.t.push(Tk::Str(s.into())); }
+    fn name(&mut self) -> String { let s = *self.rng.pick(NAMES); self.n(s); s.to_string() }
+    fn name_not(&mut self, bad: &[&str]) -> String { loop { let s = *self.rng.pick(NAMES); if !bad.contains(&s) { self.n(s); return s.to_string(); } } }
+    fn tname(&mut self) -> String { let s = *self.rng.pick(TYPE_NAMES); self.n(s); s.to_string() }
+    /// pushes a string token, returns the value it denotes
+    fn string(&mut self) -> String {
+        if self.rng.chance(1, 40) { self.constructs.push("surrogate-pair-escape"); self.t.push(Tk::Str("\"\\uD83D\\uDE00\"".into())); return "\u{1F600}".into(); }
+        if self.rng.chance(1, 4) { let s = *self.rng.pick(BLOCKS); self.t.push(Tk::Block(s.into())); block_string_value(&s[3..s.len() - 3]) }
+        else { let s = *self.rng.pick(STRS); self.t.push(Tk::Str(s.into())); spec_quoted_value(s) }
     }
-    fn desc(&mut self) { if self.rng.chance(1, 4) { self.string(); } }
-    fn ty(&mut self, d: usize) {
-        match self.rng.below(if d > 2 { 2 } else { 4 }) {
-            0 | 1 => self.tname(),
-            _ => { self.p("["); self.ty(d + 1); self.p("]"); }
-        }
-        if self.rng.chance(1, 3) { self.p("!"); }
+    fn desc(&mut self) -> String { if self.rng.chance(1, 4) { let v = self.string(); format!("(Some (mkDesc {P0} {}))", coq_str(&v)) } else { "None".into() } }
+    fn ty(&mut self, d: usize) -> String {
+        let mut t = match self.rng.below(if d > 2 { 2 } else { 4 }) {
+            0 | 1 => { let n = self.tname(); format!("(TNamed {})", t_id(&n)) }
+            _ => { self.p("["); let inner = self.ty(d + 1); self.p("]"); format!("(TList {P0} {inner})") }
+        };
+        if self.rng.chance(1, 3) { self.p("!"); t = format!("(TNonNull {t})"); }
+        t
     }
-    fn value(&mut self, d: usize, konst: bool) {
+    fn value(&mut self, d: usize, konst: bool) -> String {
         self.budget -= 1;
         let k = if d > 2 || self.budget < 0 { self.rng.below(7) } else { self.rng.below(10) };
         match k {
-            0 => if konst { self.t.push(Tk::Num("1".into())) } else { self.p("$"); self.name(); },
-            1 => { let s = *self.rng.pick(NUMS); self.t.push(Tk::Num(s.into())); }
-            2 => self.string(),
-            3 => { let s = *self.rng.pick(&["true", "false"]); self.n(s); }
-            4 => self.n("null"),
-            5 | 6 => self.name_not(&["true", "false", "null"]),
-            7 | 8 => { self.p("["); for _ in 0..self.rng.below(3) { self.value(d + 1, konst); } self.p("]"); }
-            _ => { self.p("{"); for _ in 0..self.rng.below(3) { self.name(); self.p(":"); self.value(d + 1, konst); } self.p("}"); }
+            0 => if konst { self.t.push(Tk::Num("1".into())); format!("(VInt {P0} (s \"1\"))") } else { self.p("$"); let n = self.name(); format!("(VVar {} {P0})", coq_str(&n)) },
+            1 => { let s = *self.rng.pick(NUMS); self.t.push(Tk::Num(s.into()));
+                   if s.contains('.') || s.contains('e') || s.contains('E') { format!("(VFloat {P0} {})", coq_str(s)) } else { format!("(VInt {P0} {})", coq_str(s)) } }
+            2 => { let v = self.string(); format!("(VString {P0} {})", coq_str(&v)) }
+            3 => { let s = *self.rng.pick(&["true", "false"]); self.n(s); format!("(VBool {P0} {s})") }
+            4 => { self.n("null"); format!("(VNull {P0})") }
+            5 | 6 => { let n = self.name_not(&["true", "false", "null"]); format!("(VEnum {P0} {})", coq_str(&n)) }
+            7 | 8 => { self.p("["); let mut vs = vec![]; for _ in 0..self.rng.below(3) { vs.push(self.value(d + 1, konst)); } self.p("]"); format!("(VList {P0} {})", t_list(&vs)) }
+            _ => { self.p("{"); let mut fs = vec![]; for _ in 0..self.rng.below(3) { let n = self.name(); self.p(":"); let v = self.value(d + 1, konst); fs.push(format!("({}, {})", t_id(&n), v)); } self.p("}"); format!("(VObject {P0} {})", t_list(&fs)) }
         }
     }
-    fn args(&mut self, konst: bool) {
+    fn args(&mut self, konst: bool) -> String {
         self.p("(");
-        for _ in 0..self.rng.range(1, 2) { self.name(); self.p(":"); self.value(0, konst); }
+        let mut xs = vec![];
+        for _ in 0..self.rng.range(1, 2) { let n = self.name(); self.p(":"); let v = self.value(0, konst); xs.push(format!("({}, {})", t_id(&n), v)); }
         self.p(")");
+        format!("(mkArgs {P0} {})", t_list(&xs))
     }
-    fn dirs(&mut self, konst: bool) {
-        if !self.rng.chance(1, 3) { return; }
-        for _ in 0..self.rng.range(1, 2) { self.p("@"); self.name(); if self.rng.chance(1, 2) { self.args(konst); } }
+    fn dir1(&mut self, konst: bool) -> String {
+        self.p("@"); let n = self.name();
+        let a = if self.rng.chance(1, 2) { Some(self.args(konst)) } else { None };
+        format!("(mkDir {P0} {} {})", t_id(&n), t_opt(&a))
     }
-    fn dirs1(&mut self, konst: bool) { self.p("@"); self.name(); if self.rng.chance(1, 2) { self.args(konst); } }
-    fn selset(&mut self, d: usize) {
+    fn dirs(&mut self, konst: bool) -> String {
+        if !self.rng.chance(1, 3) { return "[]".into(); }
+        let mut ds = vec![];
+        for _ in 0..self.rng.range(1, 2) { ds.push(self.dir1(konst)); }
+        t_list(&ds)
+    }
+    fn dirs1(&mut self, konst: bool) -> String { let d = self.dir1(konst); t_list(&[d]) }
+    fn selset(&mut self, d: usize) -> String {
         self.p("{");
+        let mut sels = vec![];
         for _ in 0..self.rng.range(1, 3) {
             self.budget -= 1;
             match self.rng.below(if d > 2 || self.budget < 0 { 6 } else { 9 }) {
                 0..=5 => {
-                    if self.rng.chance(1, 4) { self.name(); self.p(":"); }
-                    self.name();
-                    if self.rng.chance(1, 4) { self.args(false); }
-                    self.dirs(false);
-                    if d <= 2 && self.budget > 0 && self.rng.chance(1, 3) { self.selset(d + 1); }
+                    let alias = if self.rng.chance(1, 4) { let a = self.name(); self.p(":"); Some(t_id(&a)) } else { None };
+                    let n = self.name();
+                    let args = if self.rng.chance(1, 4) { Some(self.args(false)) } else { None };
+                    let ds = self.dirs(false);
+                    let sub = if d <= 2 && self.budget > 0 && self.rng.chance(1, 3) { Some(self.selset(d + 1)) } else { None };
+                    sels.push(format!("(SField {} {} {} {} {})", t_opt(&alias), t_id(&n), t_opt(&args), ds, t_opt(&sub)));
                 }
-                6 => { self.p("..."); self.name_not(&["on"]); self.dirs(false); }
+                6 => { self.p("..."); let n = self.name_not(&["on"]); let ds = self.dirs(false); sels.push(format!("(SSpread {P0} {} {})", t_id(&n), ds)); }
                 _ => {
                     self.p("...");
-                    if self.rng.chance(2, 3) { self.n("on"); self.tname(); }
-                    self.dirs(false);
-                    self.selset(d + 1);
+                    let cond = if self.rng.chance(2, 3) { self.n("on"); let t = self.tname(); Some(t_id(&t)) } else { None };
+                    let ds = self.dirs(false);
+                    let sub = self.selset(d + 1);
+                    sels.push(format!("(SInline {P0} {} {} {})", t_opt(&cond), ds, sub));
                 }
             }
         }
         self.p("}");
+        format!("(SelSet {P0} {})", t_list(&sels))
     }
-    fn vardefs(&mut self) {
+    /// default value and directives of a variable / argument / input field definition; both together now and then
+    fn default_and_dirs(&mut self) -> (String, String) {
+        if self.rng.chance(1, 4) {
+            self.p("="); let v = self.value(0, true);
+            let mut ds = vec![]; for _ in 0..self.rng.range(1, 2) { ds.push(self.dir1(true)); }
+            return (format!("(Some {v})"), t_list(&ds));
+        }
+        let dv = if self.rng.chance(1, 3) { self.p("="); let v = self.value(0, true); format!("(Some {v})") } else { "None".into() };
+        let ds = self.dirs(true);
+        (dv, ds)
+    }
+    fn vardefs(&mut self) -> String {
         self.p("(");
+        let mut vs = vec![];
         for _ in 0..self.rng.range(1, 3) {
-            self.p("$"); self.name(); self.p(":"); self.ty(0);
-            if self.rng.chance(1, 3) { self.p("="); self.value(0, true); }
-            self.dirs(true);
+            self.p("$"); let n = self.name(); self.p(":"); let t = self.ty(0);
+            let (dv, ds) = self.default_and_dirs();
+            vs.push(format!("(mkVarDef {P0} {} {P0} {} {} {})", coq_str(&n), t, dv, ds));
         }
         self.p(")");
+        format!("(mkVarDefs {P0} {})", t_list(&vs))
     }
-    fn op_doc(&mut self) {
+    fn op_doc(&mut self) -> String {
+        let mut defs = vec![];
         for _ in 0..self.rng.range(1, 3) {
             match self.rng.below(8) {
-                0 => { self.selset(0); }
+                0 => { let ss = self.selset(0); defs.push(format!("(DOp (mkOp {P0} Query None None [] {ss}))")); }
                 1 | 2 | 3 => {
                     let k = *self.rng.pick(&["query", "mutation", "subscription"]);
                     self.n(k);
-                    if self.rng.chance(2, 3) { self.name(); }
-                    if self.rng.chance(1, 3) { self.vardefs(); }
-                    self.dirs(false);
-                    self.selset(0);
+                    let ot = match k { "query" => "Query", "mutation" => "Mutation", _ => "Subscription" };
+                    let name = if self.rng.chance(2, 3) { Some(t_id(&self.name())) } else { None };
+                    let vars = if self.rng.chance(1, 3) { Some(self.vardefs()) } else { None };
+                    let ds = self.dirs(false);
+                    let ss = self.selset(0);
+                    defs.push(format!("(DOp (mkOp {P0} {ot} {} {} {} {}))", t_opt(&name), t_opt(&vars), ds, ss));
                 }
                 4 | 5 => {
-                    self.n("fragment"); self.name_not(&["on"]); self.n("on"); self.tname(); self.dirs(false); self.selset(0);
+                    self.n("fragment"); let n = self.name_not(&["on"]); self.n("on"); let t = self.tname(); let ds = self.dirs(false); let ss = self.selset(0);
+                    defs.push(format!("(DFrag (mkFrag {P0} {} {} {} {}))", t_id(&n), t_id(&t), ds, ss));
                 }
                 _ => {
                     self.t.push(Tk::ImportHash);
                     self.n("import");
-                    for _ in 0..self.rng.range(1, 3) { if self.rng.chance(1, 4) { self.p("*"); } else { self.name_not(&["from"]); } }
+                    let mut ts = vec![];
+                    for _ in 0..self.rng.range(1, 3) { if self.rng.chance(1, 4) { self.p("*"); ts.push("ImpWildcard".to_string()); } else { let n = self.name_not(&["from"]); ts.push(format!("(ImpName {})", t_id(&n))); } }
                     self.n("from");
                     let s = *self.rng.pick(&["\"./frag.graphql\"", "\"../a b/é.graphql\"", "\"x\"", "\"\""]);
                     self.t.push(Tk::Str(s.into()));
+                    defs.push(format!("(DImport (mkImport {P0} {} {} {P0}))", t_list(&ts), coq_str(&spec_quoted_value(s))));
                 }
             }
         }
+        format!("(mkOpDoc {P0} {})", t_list(&defs))
     }
-    fn argsdef(&mut self) {
+    fn argsdef(&mut self) -> String {
         self.p("(");
-        for _ in 0..self.rng.range(1, 2) { self.input_value(); }
+        let mut xs = vec![];
+        for _ in 0..self.rng.range(1, 2) { xs.push(self.input_value()); }
         self.p(")");
+        t_list(&xs)
     }
-    fn input_value(&mut self) {
-        self.desc(); self.name(); self.p(":"); self.ty(0);
-        if self.rng.chance(1, 3) { self.p("="); self.value(0, true); }
-        self.dirs(true);
+    fn input_value(&mut self) -> String {
+        let d = self.desc(); let n = self.name(); self.p(":"); let t = self.ty(0);
+        let (dv, ds) = self.default_and_dirs();
+        format!("(mkInputVal {d} {P0} {} {t} {dv} {ds})", t_id(&n))
     }
-    fn fields(&mut self) {
+    fn fields(&mut self) -> String {
         self.p("{");
+        let mut fs = vec![];
         for _ in 0..self.rng.range(1, 3) {
-            self.desc(); self.name();
-            if self.rng.chance(1, 3) { self.argsdef(); }
-            self.p(":"); self.ty(0); self.dirs(true);
+            let d = self.desc(); let n = self.name();
+            let a = if self.rng.chance(1, 3) { Some(self.argsdef()) } else { None };
+            self.p(":"); let t = self.ty(0); let ds = self.dirs(true);
+            fs.push(format!("(mkFieldDef {d} {} {} {t} {ds})", t_id(&n), t_opt(&a)));
         }
         self.p("}");
+        t_list(&fs)
     }
-    fn implements(&mut self) {
+    fn implements(&mut self) -> String {
         self.n("implements");
         if self.rng.chance(1, 4) { self.p("&"); }
-        self.tname();
-        for _ in 0..self.rng.below(3) { self.p("&"); self.tname(); }
+        let mut is = vec![t_id(&self.tname())];
+        for _ in 0..self.rng.below(3) { self.p("&"); is.push(t_id(&self.tname())); }
+        t_list(&is)
     }
-    fn enum_values(&mut self) {
+    fn enum_values(&mut self) -> String {
         self.p("{");
-        for _ in 0..self.rng.range(1, 3) { self.desc(); self.name_not(&["true", "false", "null"]); self.dirs(true); }
+        let mut vs = vec![];
+        for _ in 0..self.rng.range(1, 3) { let d = self.desc(); let n = self.name_not(&["true", "false", "null"]); let ds = self.dirs(true); vs.push(format!("(mkEnumVal {d} {} {ds})", t_id(&n))); }
         self.p("}");
+        t_list(&vs)
     }
-    fn input_fields(&mut self) { self.p("{"); for _ in 0..self.rng.range(1, 3) { self.input_value(); } self.p("}"); }
-    fn roots(&mut self) {
+    fn input_fields(&mut self) -> String { self.p("{"); let mut xs = vec![]; for _ in 0..self.rng.range(1, 3) { xs.push(self.input_value()); } self.p("}"); t_list(&xs) }
+    fn roots(&mut self) -> String {
         self.p("{");
-        for _ in 0..self.rng.range(1, 3) { let k = *self.rng.pick(&["query", "mutation", "subscription"]); self.n(k); self.p(":"); self.tname(); }
+        let mut rs = vec![];
+        for _ in 0..self.rng.range(1, 3) {
+            let k = *self.rng.pick(&["query", "mutation", "subscription"]); self.n(k); self.p(":"); let t = self.tname();
+            let ot = match k { "query" => "Query", "mutation" => "Mutation", _ => "Subscription" };
+            rs.push(format!("({ot}, {})", t_id(&t)));
+        }
         self.p("}");
+        t_list(&rs)
     }
-    /// one type-system definition or extension; `safe`: only forms every production of which the
-    /// current grammar is known to accept (see design/C07.md: `type X` without fields or directives and
-    /// `union U` without `=` are spec-valid but rejected)
-    fn ts_def(&mut self) {
+    fn members(&mut self, max_more: usize) -> String {
+        if self.rng.chance(1, 4) { self.p("|"); }
+        let mut ms = vec![t_id(&self.tname())];
+        for _ in 0..self.rng.below(max_more) { self.p("|"); ms.push(t_id(&self.tname())); }
+        t_list(&ms)
+    }
+    /// one type-system definition or extension, with the tsdef it denotes
+    fn ts_def(&mut self) -> String {
         match self.rng.below(16) {
-            0 => { self.desc(); self.n("schema"); self.dirs(true); self.roots(); }
-            1 => { self.desc(); self.n("scalar"); self.tname(); self.dirs(true); }
+            0 => { let d = self.desc(); self.n("schema"); let ds = self.dirs(true); let rs = self.roots(); format!("(TSSchema (mkSchemaDef {d} {P0} {ds} {rs}))") }
+            1 => { let d = self.desc(); self.n("scalar"); let n = self.tname(); let ds = self.dirs(true); format!("(TSType (TDScalar {d} {P0} {} {ds} {}))", t_id(&n), t_kw("scalar")) }
             2 | 3 => {
-                self.desc(); self.n("type"); self.tname();
-                if self.rng.chance(1, 3) { self.implements(); }
-                if self.rng.chance(1, 12) { self.constructs.push("object-type-without-fields"); }
-                else if self.rng.chance(1, 5) { self.dirs1(true); if self.rng.chance(1, 2) { self.fields(); } } else { self.dirs(true); self.fields(); }
+                let d = self.desc(); self.n("type"); let n = self.tname();
+                let im = if self.rng.chance(1, 3) { self.implements() } else { "[]".into() };
+                let (ds, fs) = if self.rng.chance(1, 12) { self.constructs.push("object-type-without-fields"); ("[]".to_string(), "[]".to_string()) }
+                    else if self.rng.chance(1, 5) { let ds = self.dirs1(true); let fs = if self.rng.chance(1, 2) { self.fields() } else { "[]".into() }; (ds, fs) }
+                    else { let ds = self.dirs(true); let fs = self.fields(); (ds, fs) };
+                format!("(TSType (TDObject {d} {P0} {} {im} {ds} {fs} {}))", t_id(&n), t_kw("type"))
             }
             4 => {
-                self.desc(); self.n("interface"); self.tname();
-                if self.rng.chance(1, 3) { self.implements(); }
-                self.dirs(true);
-                if self.rng.chance(4, 5) { self.fields(); }
+                let d = self.desc(); self.n("interface"); let n = self.tname();
+                let im = if self.rng.chance(1, 3) { self.implements() } else { "[]".into() };
+                let ds = self.dirs(true);
+                let fs = if self.rng.chance(4, 5) { self.fields() } else { "[]".into() };
+                format!("(TSType (TDInterface {d} {P0} {} {im} {ds} {fs} {}))", t_id(&n), t_kw("interface"))
             }
             5 => {
-                self.desc(); self.n("union"); self.tname(); self.dirs(true);
-                if self.rng.chance(1, 10) { self.constructs.push("union-without-members"); return; }
-                self.p("=");
-                if self.rng.chance(1, 4) { self.p("|"); }
-                self.tname();
-                for _ in 0..self.rng.below(3) { self.p("|"); self.tname(); }
+                let d = self.desc(); self.n("union"); let n = self.tname(); let ds = self.dirs(true);
+                let ms = if self.rng.chance(1, 10) { self.constructs.push("union-without-members"); "[]".to_string() } else { self.p("="); self.members(3) };
+                format!("(TSType (TDUnion {d} {P0} {} {ds} {ms} {}))", t_id(&n), t_kw("union"))
             }
-            6 => { self.desc(); self.n("enum"); self.tname(); self.dirs(true); if self.rng.chance(4, 5) { self.enum_values(); } }
-            7 => { self.desc(); self.n("input"); self.tname(); self.dirs(true); if self.rng.chance(4, 5) { self.input_fields(); } }
+            6 => { let d = self.desc(); self.n("enum"); let n = self.tname(); let ds = self.dirs(true); let vs = if self.rng.chance(4, 5) { self.enum_values() } else { "[]".into() };
+                   format!("(TSType (TDEnum {d} {P0} {} {ds} {vs} {}))", t_id(&n), t_kw("enum")) }
+            7 => { let d = self.desc(); self.n("input"); let n = self.tname(); let ds = self.dirs(true); let fs = if self.rng.chance(4, 5) { self.input_fields() } else { "[]".into() };
+                   format!("(TSType (TDInput {d} {P0} {} {ds} {fs} {}))", t_id(&n), t_kw("input")) }
             8 | 9 => {
-                self.desc(); self.n("directive"); self.p("@"); self.name();
-                if self.rng.chance(1, 3) { self.argsdef(); }
-                if self.rng.chance(1, 3) { self.n("repeatable"); }
+                let d = self.desc(); self.n("directive"); self.p("@"); let n = self.name();
+                let a = if self.rng.chance(1, 3) { Some(self.argsdef()) } else { None };
+                let rep = if self.rng.chance(1, 3) { self.n("repeatable"); Some(t_id("repeatable")) } else { None };
                 self.n("on");
                 if self.rng.chance(1, 4) { self.p("|"); }
-                let l = *self.rng.pick(LOCS); self.n(l);
-                for _ in 0..self.rng.below(3) { self.p("|"); let l = *self.rng.pick(LOCS); self.n(l); }
+                let mut ls = vec![]; let l = *self.rng.pick(LOCS); self.n(l); ls.push(t_id(l));
+                for _ in 0..self.rng.below(3) { self.p("|"); let l = *self.rng.pick(LOCS); self.n(l); ls.push(t_id(l)); }
+                format!("(TSDirective (mkDirDef {d} {P0} {} {} {} {} {}))", t_id(&n), t_opt(&a), t_opt(&rep), t_list(&ls), t_kw("directive"))
             }
-            10 => { self.n("extend"); self.n("schema"); if self.rng.chance(1, 2) { self.dirs1(true); if self.rng.chance(1, 2) { self.roots(); } } else { self.roots(); } }
-            11 => { self.n("extend"); self.n("scalar"); self.tname(); self.dirs1(true); }
+            10 => { self.n("extend"); self.n("schema");
+                    let (ds, rs) = if self.rng.chance(1, 2) { let ds = self.dirs1(true); let rs = if self.rng.chance(1, 2) { self.roots() } else { "[]".into() }; (ds, rs) } else { ("[]".to_string(), self.roots()) };
+                    format!("(TSSchemaExt (mkSchemaExt {P0} {ds} {rs}))") }
+            11 => { self.n("extend"); self.n("scalar"); let n = self.tname(); let ds = self.dirs1(true); format!("(TSTypeExt (TEScalar {P0} {} {ds}))", t_id(&n)) }
             12 => {
-                self.n("extend"); let k = *self.rng.pick(&["type", "interface"]); self.n(k); self.tname();
-                match self.rng.below(3) {
-                    0 => { if self.rng.chance(1, 2) { self.implements(); } self.dirs(true); self.fields(); }
-                    1 => { if self.rng.chance(1, 2) { self.implements(); } self.dirs1(true); }
-                    _ => { self.implements(); }
-                }
+                self.n("extend"); let k = *self.rng.pick(&["type", "interface"]); self.n(k); let n = self.tname();
+                let (im, ds, fs) = match self.rng.below(3) {
+                    0 => { let im = if self.rng.chance(1, 2) { self.implements() } else { "[]".into() }; let ds = self.dirs(true); let fs = self.fields(); (im, ds, fs) }
+                    1 => { let im = if self.rng.chance(1, 2) { self.implements() } else { "[]".into() }; let ds = self.dirs1(true); (im, ds, "[]".to_string()) }
+                    _ => { (self.implements(), "[]".to_string(), "[]".to_string()) }
+                };
+                format!("(TSTypeExt ({} {P0} {} {im} {ds} {fs}))", if k == "type" { "TEObject" } else { "TEInterface" }, t_id(&n))
             }
             13 => {
-                self.n("extend"); self.n("union"); self.tname();
-                if self.rng.chance(1, 2) { self.dirs(true); self.p("="); if self.rng.chance(1, 4) { self.p("|"); } self.tname(); for _ in 0..self.rng.below(2) { self.p("|"); self.tname(); } }
-                else { self.dirs1(true); }
+                self.n("extend"); self.n("union"); let n = self.tname();
+                let (ds, ms) = if self.rng.chance(1, 2) { let ds = self.dirs(true); self.p("="); let ms = self.members(2); (ds, ms) } else { (self.dirs1(true), "[]".to_string()) };
+                format!("(TSTypeExt (TEUnion {P0} {} {ds} {ms}))", t_id(&n))
             }
-            14 => { self.n("extend"); self.n("enum"); self.tname(); if self.rng.chance(1, 2) { self.dirs(true); self.enum_values(); } else { self.dirs1(true); } }
-            _ => { self.n("extend"); self.n("input"); self.tname(); if self.rng.chance(1, 2) { self.dirs(true); self.input_fields(); } else { self.dirs1(true); } }
+            14 => { self.n("extend"); self.n("enum"); let n = self.tname();
+                    let (ds, vs) = if self.rng.chance(1, 2) { let ds = self.dirs(true); let vs = self.enum_values(); (ds, vs) } else { (self.dirs1(true), "[]".to_string()) };
+                    format!("(TSTypeExt (TEEnum {P0} {} {ds} {vs}))", t_id(&n)) }
+            _ => { self.n("extend"); self.n("input"); let n = self.tname();
+                   let (ds, fs) = if self.rng.chance(1, 2) { let ds = self.dirs(true); let fs = self.input_fields(); (ds, fs) } else { (self.dirs1(true), "[]".to_string()) };
+                   format!("(TSTypeExt (TEInput {P0} {} {ds} {fs}))", t_id(&n)) }
         }
     }
-    fn ts_doc(&mut self) { for _ in 0..self.rng.range(1, 3) { self.ts_def(); } }
+    fn ts_doc(&mut self) -> String { let mut ds = vec![]; for _ in 0..self.rng.range(1, 3) { ds.push(self.ts_def()); } t_list(&ds) }
 }
 
 fn render_plain(toks: &[Tk]) -> String {
@@ -847,6 +949,10 @@ fn corpus() -> Vec<(Kind, &'static str, &'static str, bool)> {
         (Kind::Ts, "lone-cr-schema", "type A {\r  f: Int\r}\rscalar S", true),
         (Kind::Ts, "crlf-schema", "type A {\r\n  f: Int\r\n}\r\nscalar S", true),
         (Kind::Ts, "two-types", "type A { f: Int } type B { g: [A!]! }", true),
+        (Kind::Ts, "arg-default-and-directive", "type Q { f(limit: Int = 10 @deprecated(reason: \"x\")): Int }", true),
+        (Kind::Ts, "directive-arg-default-and-directive", "directive @x(arg: T = 1 @d, \"doc\" b: [Int!] = [1] @e @f) repeatable on FIELD | QUERY", true),
+        (Kind::Ts, "input-field-default-and-directive", "input I { a: Int = 1 @d b: String = \"s\" @e(x: 1) }", true),
+        (Kind::Op, "variable-default-and-directive", "query Q($v: Int = 1 @d, $w: [Int] = [1, 2] @e @f) { a }", true),
         (Kind::Ts, "enum-true", "enum E { true }", false),
         (Kind::Ts, "keyword-digit-enum", "enum true1 { true1 false0 null2 on1 type9 } extend enum null0 { null_1 }", true),
         (Kind::Ts, "keyword-digit-types", "type type9 implements on1 & implements2 { true1(null0: input0 = true1): [on1!] @extend3 } union union8 = true1 | null0 directive @on1 repeatable on FIELD", true),
@@ -860,7 +966,7 @@ struct Ctx { cases: Cases, distinct: HashSet<String>, stats: BTreeMap<String, u6
 impl Ctx {
     fn bump(&mut self, k: &str) { *self.stats.entry(k.to_string()).or_insert(0) += 1; }
     /// runs one text; `canon`: erased AST of the canonical rendering this text must agree with
-    fn add(&mut self, kind: Kind, src: &str, stream: &str, file: usize, canon: Option<&Option<String>>, expect: u8, extra: serde_json::Value) -> (bool, Option<String>) {
+    fn add(&mut self, kind: Kind, src: &str, stream: &str, file: usize, canon: Option<&Option<String>>, expect: u8, expected: Option<&str>, extra: serde_json::Value) -> (bool, Option<String>) {
         // expect: 0 = nothing known, 1 = a document of the language (must parse, property applies), 2 = not in the language (must be rejected)
         let in_lang = expect == 1;
         let nchars = src.chars().count();
@@ -891,9 +997,9 @@ impl Ctx {
         if let Some(ts) = &toks {
             for t in ts { if let Tk::Block(b) = t { if block_string_value(&b[3..b.len() - 3]) != b[3..b.len() - 3] { block_raw_ne_cooked = true; } } }
         }
-        let term = format!("{} {} {} {} {} {} {}",
+        let term = format!("{} {} {} {} {} {} {} {}",
             match kind { Kind::Op => "COp", Kind::Ts => "CTs" }, file, coq_str(src),
-            match &tree { None => "None".to_string(), Some((t, _)) => format!("(Some {})", t) }, ast_term, coq_bool(canon_same), expect);
+            match &tree { None => "None".to_string(), Some((t, _)) => format!("(Some {})", t) }, ast_term, coq_bool(canon_same), expect, match expected { Some(e) => format!("(Some {})", e), None => "None".to_string() });
         // known-finding classes: a flag set by the generator for a construct + the failure mode that construct has
         let mut spec_classes: Vec<String> = vec![];
         if let Some(fl) = extra.get("constructs").and_then(|v| v.as_array()) {
@@ -906,7 +1012,7 @@ impl Ctx {
         }
         let mut d = json!({"kind": match kind { Kind::Op => "operation", Kind::Ts => "type-system" }, "stream": stream, "text": src, "file": file,
             "impl_outcome": outcome, "pairs": tree.as_ref().map(|t| t.1), "canon_same": canon_same,
-            "has_lone_cr": lone_cr, "block_raw_ne_cooked": block_raw_ne_cooked, "spec_lexable": toks.is_some(), "render_fragment": render_fragment, "in_lang": in_lang, "expect": expect, "spec_classes": spec_classes});
+            "has_lone_cr": lone_cr, "block_raw_ne_cooked": block_raw_ne_cooked, "spec_lexable": toks.is_some(), "render_fragment": render_fragment, "in_lang": in_lang, "expect": expect, "has_expected_document": expected.is_some(), "spec_classes": spec_classes});
         if let (Some(o), Some(e)) = (d.as_object_mut(), extra.as_object()) { for (k, v) in e { o.insert(k.clone(), v.clone()); } }
         self.bump(&format!("stream:{stream}"));
         self.bump(&format!("outcome:{outcome}"));
@@ -940,30 +1046,30 @@ fn main() {
             "surrogate-pair" => vec!["surrogate-pair-escape"],
             _ => vec![],
         };
-        cx.add(kind, text, "corpus", 0, None, if MUST_FAIL.contains(&name) { 2 } else if in_lang { 1 } else { 0 }, json!({"corpus": name, "constructs": constructs}));
+        cx.add(kind, text, "corpus", 0, None, if MUST_FAIL.contains(&name) { 2 } else if in_lang { 1 } else { 0 }, None, json!({"corpus": name, "constructs": constructs}));
     }
     // 0b. deep nesting (the model's fuel must suffice: a PFuel result never agrees)
     for depth in [40usize, 120] {
         let list = format!("{{a(x:{}1{})}}", "[".repeat(depth), "]".repeat(depth));
-        cx.add(Kind::Op, &list, "corpus", 0, None, 1, json!({"corpus": format!("deep-list-{depth}")}));
+        cx.add(Kind::Op, &list, "corpus", 0, None, 1, None, json!({"corpus": format!("deep-list-{depth}")}));
         let sel = format!("{}x{}", "{a".repeat(depth), "}".repeat(depth));
-        cx.add(Kind::Op, &sel, "corpus", 0, None, 1, json!({"corpus": format!("deep-selection-{depth}")}));
+        cx.add(Kind::Op, &sel, "corpus", 0, None, 1, None, json!({"corpus": format!("deep-selection-{depth}")}));
         let ty = format!("type A{{f:{}Int{}}}", "[".repeat(depth), "]!".repeat(depth));
-        cx.add(Kind::Ts, &ty, "corpus", 0, None, 1, json!({"corpus": format!("deep-type-{depth}")}));
+        cx.add(Kind::Ts, &ty, "corpus", 0, None, 1, None, json!({"corpus": format!("deep-type-{depth}")}));
         let obj = format!("{{a(x:{}1{})}}", "{k:".repeat(depth), "}".repeat(depth));
-        cx.add(Kind::Op, &obj, "corpus", 0, None, 1, json!({"corpus": format!("deep-object-{depth}")}));
+        cx.add(Kind::Op, &obj, "corpus", 0, None, 1, None, json!({"corpus": format!("deep-object-{depth}")}));
     }
     // 1. the repository's own parser test inputs (dedented; original too when short enough)
     for (kind, text) in repo_test_inputs(thorough) {
         let d = dedent(&text);
-        cx.add(kind, &d, "repo-tests", 0, None, 1, json!({}));
+        cx.add(kind, &d, "repo-tests", 0, None, 1, None, json!({}));
         if let Some(toks) = lex(&d) {
             let canon = render_plain(&toks);
-            let (added, ce) = cx.add(kind, &canon, "repo-tests-canonical", 0, None, 1, json!({}));
+            let (added, ce) = cx.add(kind, &canon, "repo-tests-canonical", 0, None, 1, None, json!({}));
             if !added { continue; }
             let tv = Trivia { heavy: 5, lone_cr: false, bom: true, comments: true, crlf: true };
             let t = render_trivia(&mut rng, &toks, &tv);
-            cx.add(kind, &t, "repo-tests-trivia", 1, Some(&ce), 1, json!({"canonical": canon}));
+            cx.add(kind, &t, "repo-tests-trivia", 1, Some(&ce), 1, None, json!({"canonical": canon}));
         }
     }
 
@@ -983,11 +1089,11 @@ fn main() {
         let set: std::collections::BTreeSet<usize> = [usize::MAX].into_iter().collect();
         let head = render_schema(&s, Some(&set));
         if !head.is_empty() { pieces.push(head); }
-        for text in pieces { variants(&mut cx, &mut rng, Kind::Ts, &text, "gen-schema", &[]); }
+        for text in pieces { variants(&mut cx, &mut rng, Kind::Ts, &text, "gen-schema", &[], None); }
         for _ in 0..(if thorough { 4 } else { 2 }) {
             let d = gen_doc(&mut rng, &s, &DocCfg { max_depth: 3, shorthand: true, ..DocCfg::default() });
-            for o in &d.ops { let one = Doc { ops: vec![o.clone()], frags: vec![], features: vec![] }; variants(&mut cx, &mut rng, Kind::Op, &one.render(), "gen-doc", &[]); }
-            for f in d.frags.iter().take(2) { let one = Doc { ops: vec![], frags: vec![f.clone()], features: vec![] }; variants(&mut cx, &mut rng, Kind::Op, &one.render(), "gen-doc", &[]); }
+            for o in &d.ops { let one = Doc { ops: vec![o.clone()], frags: vec![], features: vec![] }; variants(&mut cx, &mut rng, Kind::Op, &one.render(), "gen-doc", &[], None); }
+            for f in d.frags.iter().take(2) { let one = Doc { ops: vec![], frags: vec![f.clone()], features: vec![] }; variants(&mut cx, &mut rng, Kind::Op, &one.render(), "gen-doc", &[], None); }
         }
     }
 
@@ -996,11 +1102,11 @@ fn main() {
     for i in 0..n_pg {
         let kind = if i % 2 == 0 { Kind::Op } else { Kind::Ts };
         let mut pg = PG { rng: &mut rng, t: vec![], budget: 14, constructs: vec![] };
-        if kind == Kind::Op { pg.op_doc(); } else { pg.ts_doc(); }
+        let expected = if kind == Kind::Op { pg.op_doc() } else { pg.ts_doc() };
         let toks = pg.t;
         let constructs = pg.constructs;
         let text = render_plain(&toks);
-        variants(&mut cx, &mut rng, kind, &text, "grammar-gen", &constructs);
+        variants(&mut cx, &mut rng, kind, &text, "grammar-gen", &constructs, Some(&expected));
     }
 
     // 4. malformed stream
@@ -1016,7 +1122,7 @@ fn main() {
         };
         // an operation text through the type-system entry point and vice versa, now and then
         let kind = if rng.chance(1, 10) { if kind == Kind::Op { Kind::Ts } else { Kind::Op } } else { kind };
-        cx.add(kind, &text, "malformed", rng.below(3), None, 0, json!({}));
+        cx.add(kind, &text, "malformed", rng.below(3), None, 0, None, json!({}));
     }
 
     let n = cx.cases.len();
@@ -1032,33 +1138,33 @@ fn main() {
 }
 
 /// canonical text + variants with the same denotation (trivia, leading separators, shorthand, block strings)
-fn variants(cx: &mut Ctx, rng: &mut Rng, kind: Kind, text: &str, stream: &str, constructs: &[&str]) {
-    let Some(toks) = lex(text) else { cx.add(kind, text, stream, 0, None, 0, json!({"note": "not lexable by the spec lexer"})); cx.bump("GENERATOR_TEXT_NOT_LEXABLE"); return; };
+fn variants(cx: &mut Ctx, rng: &mut Rng, kind: Kind, text: &str, stream: &str, constructs: &[&str], expected: Option<&str>) {
+    let Some(toks) = lex(text) else { cx.add(kind, text, stream, 0, None, 0, None, json!({"note": "not lexable by the spec lexer"})); cx.bump("GENERATOR_TEXT_NOT_LEXABLE"); return; };
     let canon = render_plain(&toks);
-    let (added, ce) = cx.add(kind, &canon, stream, 0, None, 1, json!({"variant": "canonical", "constructs": constructs}));
+    let (added, ce) = cx.add(kind, &canon, stream, 0, None, 1, expected, json!({"variant": "canonical", "constructs": constructs}));
     if !added || ce.is_none() { return; }
     let base = json!({"canonical": canon, "constructs": constructs});
     // trivia only
     let tv = Trivia { heavy: rng.range(2, 8), lone_cr: false, bom: rng.chance(1, 2), comments: true, crlf: rng.chance(1, 2) };
     let t = render_trivia(rng, &toks, &tv);
-    cx.add(kind, &t, stream, rng.below(3), Some(&ce), 1, merge(&base, json!({"variant": "trivia"})));
+    cx.add(kind, &t, stream, rng.below(3), Some(&ce), 1, expected, merge(&base, json!({"variant": "trivia"})));
     // lone CR as line terminator (known finding: positions)
     if rng.chance(1, 6) {
         let tv = Trivia { heavy: 4, lone_cr: true, bom: false, comments: rng.chance(1, 2), crlf: false };
         let t = render_trivia(rng, &toks, &tv);
-        cx.add(kind, &t, stream, 0, Some(&ce), 1, merge(&base, json!({"variant": "trivia-lone-cr"})));
+        cx.add(kind, &t, stream, 0, Some(&ce), 1, expected, merge(&base, json!({"variant": "trivia-lone-cr"})));
     }
     // leading | and &
     let (t2, ch) = if kind == Kind::Ts { add_leading_separators(rng, &toks) } else { (vec![], false) };
     if ch {
         let tv = Trivia { heavy: 2, lone_cr: false, bom: false, comments: false, crlf: false };
         let t = render_trivia(rng, &t2, &tv);
-        cx.add(kind, &t, stream, 0, Some(&ce), 1, merge(&base, json!({"variant": "leading-separators"})));
+        cx.add(kind, &t, stream, 0, Some(&ce), 1, expected, merge(&base, json!({"variant": "leading-separators"})));
     }
     // anonymous query shorthand
     if kind == Kind::Op {
         let (t2, ch) = to_shorthand(&toks);
-        if ch { let t = render_plain(&t2); cx.add(kind, &t, stream, 0, Some(&ce), 1, merge(&base, json!({"variant": "shorthand"}))); }
+        if ch { let t = render_plain(&t2); cx.add(kind, &t, stream, 0, Some(&ce), 1, expected, merge(&base, json!({"variant": "shorthand"}))); }
     }
     // block strings for quoted strings of the same value
     if rng.chance(1, 2) {
@@ -1066,7 +1172,7 @@ fn variants(cx: &mut Ctx, rng: &mut Rng, kind: Kind, text: &str, stream: &str, c
         let (t2, ch) = to_block(rng, &toks, indent);
         if ch {
             let t = render_plain(&t2);
-            cx.add(kind, &t, stream, 0, Some(&ce), 1, merge(&base, json!({"variant": if indent { "block-string-indented" } else { "block-string-simple" }})));
+            cx.add(kind, &t, stream, 0, Some(&ce), 1, expected, merge(&base, json!({"variant": if indent { "block-string-indented" } else { "block-string-simple" }})));
         }
     }
 }
